@@ -372,25 +372,28 @@ def mon_unexpected(v):
 
 def mon_lock_window(v, counters):
     """C35: from the moment a session has locked row o (note 'lock') - for a serializable / immediate session:
-    from its first read - until its last commit/rollback transition, no other session's commit changes row o"""
+    from its first read - until the end of that transaction (explicit commit() or the last commit/rollback transition), no other session's commit changes row o"""
     out = []
     for t in range(v.n):
         flags = v.progs[t]['flags']
         whole = flags.get('serializable') or flags.get('immediate') or flags.get('optimistic') is False
-        marks = [(step, d[1]) for step, d in v.notes[t] if d[0] == 'lock' or (whole and d[0] == 'r')]
-        if not marks: continue
         end = v.last_end(t)
         if end is None: end = len(v.x.trace) - 1
-        first = {}
-        for step, o in marks: first.setdefault(o, step)
-        for o, start in sorted(first.items()):
+        # one window per (transaction, row): an explicit commit() in the middle of the db_session ends the locks
+        windows, first = [], {}
+        for step, d in v.notes[t]:
+            if d[0] == 'lock' or (whole and d[0] == 'r'): first.setdefault(d[1], step)
+            elif d[0] == 'committed':
+                windows += [(o, start, step) for o, start in sorted(first.items())]; first = {}
+        windows += [(o, start, end) for o, start in sorted(first.items())]
+        for o, start, stop in windows:
             counters['lock_windows'] = counters.get('lock_windows', 0) + 1
             for j in v.change_steps:
-                if start < j <= end and v.x.trace[j][0] != t and any(oo == o for oo, _ in changed_columns(v.rows[j], v.rows[j + 1])):
+                if start < j <= stop and v.x.trace[j][0] != t and any(oo == o for oo, _ in changed_columns(v.rows[j], v.rows[j + 1])):
                     u = v.x.trace[j][0]
                     out.append(('locked-row-overwritten|%s' % sclass(v.progs[t]),
-                                'T%d (%s) had A[%s] locked/read since step %d and ended at step %d, but T%d (%s) committed a change to it at step %d'
-                                % (t, v.progs[t]['name'], o, start, end, u, v.progs[u]['name'], j)))
+                                'T%d (%s) had A[%s] locked/read since step %d until step %d, but T%d (%s) committed a change to it at step %d'
+                                % (t, v.progs[t]['name'], o, start, stop, u, v.progs[u]['name'], j)))
                     break
     return out
 
